@@ -185,6 +185,30 @@ pub struct Fault {
     pub at: u64,
     /// true: the failing op returns Err; false: write returns Ok(0) / read returns Err
     pub err: bool,
+    /// which io::ErrorKind an Err carries (index into FAULT_KINDS)
+    pub kind: u8,
+    /// true: only the operation at `at` fails, later ones would succeed (a correct back end never
+    /// makes them); false: everything from `at` on fails
+    pub once: bool,
+}
+
+pub const FAULT_KINDS: [io::ErrorKind; 6] =
+    [io::ErrorKind::Other, io::ErrorKind::Interrupted, io::ErrorKind::WouldBlock, io::ErrorKind::BrokenPipe, io::ErrorKind::TimedOut, io::ErrorKind::UnexpectedEof];
+
+impl Fault {
+    pub fn plain(at: u64, err: bool) -> Self {
+        Fault { at, err, kind: 0, once: false }
+    }
+    fn hits(&self, n_events: u64) -> bool {
+        if self.once {
+            n_events == self.at
+        } else {
+            n_events >= self.at
+        }
+    }
+    fn error(&self, what: &'static str) -> io::Error {
+        io::Error::new(FAULT_KINDS[self.kind as usize % FAULT_KINDS.len()], what)
+    }
 }
 
 pub struct LogReader {
@@ -206,9 +230,9 @@ impl Read for LogReader {
             slot.push(EV_BAD_REQUEST);
         }
         if let Some(f) = self.fault {
-            if slot.n_events >= f.at {
+            if f.hits(slot.n_events) {
                 slot.push(EV_FAILED_IN);
-                return Err(io::Error::new(io::ErrorKind::Other, "injected read failure"));
+                return Err(f.error("injected read failure"));
             }
         }
         if self.pos < self.data.len() {
@@ -234,10 +258,10 @@ impl Write for LogWriter {
         }
         let b = buf.first().copied().unwrap_or(0);
         if let Some(f) = self.fault {
-            if slot.n_events >= f.at {
+            if f.hits(slot.n_events) {
                 slot.push(EV_REFUSED_OUT | b as u16);
                 return if f.err {
-                    Err(io::Error::new(io::ErrorKind::Other, "injected write failure"))
+                    Err(f.error("injected write failure"))
                 } else {
                     Ok(0)
                 };
